@@ -128,6 +128,19 @@ def run(v, tier, for_c04=False):
             v.violation(f'negotiation history {[d[0] for d in done]} + next: {err}', {'config': cfg, 'done': done},
                         signature={'component': 'matrix:' + err.kind, 'class': 'history'},
                         replay={'kind': 'matrix', 'config': cfg, 'ops': ops, 'seed': common.SEED + 1000 + i})
+    # the same endpoint requests several PFS exchanges in a row on ONE IKE_SA, for a group of each class (MODP / ECP), with the PFS group equal to and different
+    # from the IKE_SA's group: every exchange has its own g^ir (nothing of the previous one - key pair, secret - may stand in for it)
+    for gi, (ike_g, pfs_g) in enumerate((('modp2048', 'modp2048'), ('ecp256', 'modp2048'), ('ecp256', 'ecp256'), ('modp2048', 'ecp384'))):
+        cfg = {e: dict(v6=False, auth='psk', mode='tunnel', proto='esp', ip_proto='tcp', peer_port=0, ike_encr=['aes256'], ike_integ=['sha256'], ike_prf=['sha256'],
+                       ike_dh=[ike_g], child_encr=['aes128'], child_integ=['sha1'], child_dh=[pfs_g]) for e in 'AB'}
+        ops = ['add_A', 'add_A', 'rekey_child_A', 'add_B', 'add_B', 'rekey_child_B', 'add_A']
+        done, checks, n, err = run_history(cfg, ops, common.SEED + 5000 + gi)
+        evals += 1
+        for k in totals:
+            totals[k] += checks[k]
+        if err is not None:
+            v.violation(f'PFS exchanges in a row (IKE group {ike_g}, PFS group {pfs_g}) {[d[0] for d in done]} + next: {err}', {'config': cfg, 'done': done},
+                        signature={'component': 'matrix:' + err.kind, 'class': 'pfs-in-a-row'}, replay={'kind': 'matrix', 'config': cfg, 'ops': ops, 'seed': common.SEED + 5000 + gi})
     v.coverage['matrix'] = {'plan_evaluations': KDF.evaluations, 'sessions': evals, 'distinct_configurations': len(nontrivial), 'oracle_checks': totals,
                             'rule': 'every supported IKE suite once (quick: big MODP groups with one suite each) + seeded configurations over '
                                     '{ESP/AH, child suites, PFS group, mode, IPv4/IPv6, PSK/RSA, equal/reversed preference orders}, each '
